@@ -80,7 +80,7 @@ def tensor_for_block(spec, idx_objs):
 
 
 def build_expr(rng, spec, max_terms=3, exponent=False, occurrences=1, spin=False,
-               all_contracted=False):
+               all_contracted=False, link=False):
     """
     Sum of terms  tensor(I) [* tensor(I2)] * remainder  in which no index occurs
     more than twice (Einstein convention is then unambiguous): the tensor's indices
@@ -109,11 +109,24 @@ def build_expr(rng, spec, max_terms=3, exponent=False, occurrences=1, spin=False
             ok = True
             for occ in range(occurrences):
                 idx = []
+                linked = None
+                if link and occ > 0 and contracted:
+                    # the copies are contracted with each other: one slot of this copy takes a
+                    # (so far contracted) index of the previous copies
+                    s_l = rng.choice(contracted)
+                    fit = [p_ for p_, ch_ in enumerate(slots) if ch_ in ("*", s_l.space[0])]
+                    if fit:
+                        linked = (rng.choice(fit), s_l)
                 for pos, ch in enumerate(slots):
+                    if linked is not None and pos == linked[0]:
+                        idx.append(linked[1])
+                        continue
                     sp = rng.choice("ov") if ch == "*" else ch
                     spn = rng.choice("ab") if spin else ""
                     names = [n for n in POOL[sp][2:9]
-                             if _sym(n, spn) not in contracted and _sym(n, spn) not in carried]
+                             if _sym(n, spn) not in contracted and _sym(n, spn) not in carried
+                             and not (link and any(_sym(n, spn) in t_.free_symbols or _sym(n, spn) in t_.atoms()
+                                                   for t_ in tens))]
                     if not names:
                         ok = False
                         break
@@ -129,12 +142,20 @@ def build_expr(rng, spec, max_terms=3, exponent=False, occurrences=1, spin=False
                     ok = False
                     break
                 for s in dict.fromkeys(idx):
+                    if linked is not None and s == linked[1]:
+                        if idx.count(s) > 1:
+                            ok = False
+                            break
+                        contracted.remove(s)    # contracted between the copies: occurs twice
+                        continue
                     if idx.count(s) > 1:
                         continue            # repeated on the tensor: already twice
                     if all_contracted or rng.random() < 0.75:
                         contracted.append(s)
                     else:
                         carried.append(s)
+                if not ok:
+                    break
                 tens.append(t)
             if not ok:
                 continue
@@ -184,8 +205,15 @@ def run_remove(sd):
     spec = rng.choice(REMOVABLE)
     name, cls, shape, bks, slots = spec
     spin = rng.random() < 0.3          # spin-labelled indices: mixed spin blocks of the removed tensor
+    # second generator stream (keeps the cases of the first one): two copies of the tensor in a term,
+    # mostly contracted with each other; target indices passed explicitly in some cases
+    rng2 = random.Random(sd * 7919 + 1)
+    nocc = 2 if rng2.random() < 0.3 else 1
+    link = nocc == 2 and rng2.random() < 0.75
+    explicit_target = rng2.random() < 0.25
     try:
-        raw, _ = build_expr(rng, spec, spin=spin, max_terms=2 if spin else 3)
+        raw, _ = build_expr(rng, spec, spin=spin, max_terms=2 if spin or nocc == 2 else 3,
+                            occurrences=nocc, link=link)
     except RuntimeError:
         return {"status": "skipped", "item": sd}
     if raw is S.Zero or not consistent_bks(raw):
@@ -196,10 +224,14 @@ def run_remove(sd):
     if len(tsets) != 1:
         return {"status": "skipped", "item": sd}
     T = list(tsets.pop())
-    # exactly one occurrence with exponent 1 per term (multiple occurrences: outside)
+    # the same number of occurrences (one or two) with exponent 1 in every term
     for t in e.terms:
         occ = [o for o in t.objects if o.name == name]
-        if len(occ) != 1 or occ[0].exponent != 1:
+        if len(occ) != nocc or any(o.exponent != 1 for o in occ):
+            return {"status": "skipped", "item": sd}
+    if explicit_target:
+        e = Expr(raw, target_idx=list(T))
+        if list(e.terms[0].target) != T:
             return {"status": "skipped", "item": sd}
     res = {"item": sd, "in": str(e), "target": " ".join(map(str, T)), "tensor": f"{name}{shape} bks={bks} {cls}",
            "status": "equal", "det": []}
@@ -216,8 +248,9 @@ def run_remove(sd):
         if key == ("none",):
             R += bs
             continue
-        if len(key) != 1:
-            return dict(res, status="skipped", note="multiple occurrences")
+        if len(key) != nocc:
+            res["det"].append(f"block key {key} for {nocc} occurrence(s) of the tensor")
+            continue
         if bs is S.Zero:
             continue
         # tensor indices = free indices of the block expression that are not targets
@@ -225,39 +258,53 @@ def run_remove(sd):
         free = default_target([bir])
         allobj = {IR.idx_ir(s): s for s in bs.atoms(Index)}
         tens_idx = [allobj[k] for k in free if allobj[k] not in T]
-        space_str = key[0].split("_")[0]
-        spin_str = key[0].split("_")[1] if "_" in key[0] else ""
-        if len(tens_idx) != len(space_str):
-            res["det"].append(f"block {key}: expression has {len(tens_idx)} free non-target indices, block has {len(space_str)}")
+        if len(tens_idx) != sum(len(k_.split("_")[0]) for k_ in key):
+            res["det"].append(f"block {key}: expression has {len(tens_idx)} free non-target indices")
             continue
+        any_spin = any("_" in k_ for k_ in key)
         by_space = {}
         for s in sorted(tens_idx, key=name_key):
-            by_space.setdefault((s.space[0], s.spin if spin_str else ""), []).append(s)
-        # key space string is in the order of Obj.idx (amplitudes: lower, upper)
-        slots_idx = []
-        try:
-            for n_, ch in enumerate(space_str):
-                sp_ = spin_str[n_] if spin_str else ""
-                slots_idx.append(by_space[(ch, "" if sp_ == "n" else sp_)].pop(0))
-        except (KeyError, IndexError):
-            res["det"].append(f"block {key}: free indices {tens_idx} do not fit the block")
+            by_space.setdefault((s.space[0], s.spin if any_spin else ""), []).append(s)
+        # the copies take the lowest names in the order of the key (one copy: all of them)
+        contrib = bs
+        all_slots = []
+        copies = []
+        fits = True
+        for kb in key:
+            space_str = kb.split("_")[0]
+            spin_str = kb.split("_")[1] if "_" in kb else ""
+            # key space string is in the order of Obj.idx (amplitudes: lower, upper)
+            slots_idx = []
+            try:
+                for n_, ch in enumerate(space_str):
+                    sp_ = spin_str[n_] if spin_str else ""
+                    slots_idx.append(by_space[(ch, "" if sp_ == "n" else sp_)].pop(0))
+            except (KeyError, IndexError):
+                res["det"].append(f"block {key}: free indices {tens_idx} do not fit the block")
+                fits = False
+                break
+            if cls == "M":
+                nl = shape[1]
+                ordered = slots_idx[nl:] + slots_idx[:nl]     # upper, lower
+            else:
+                ordered = slots_idx
+            tens = tensor_for_block(spec, ordered)
+            if cls == "N":
+                up, lo = tuple(ordered), ()
+            else:
+                up, lo = tuple(ordered[:nu]), tuple(ordered[nu:])
+            G = group_order(cls, nu, up, lo, bks)
+            w = Rational(2 if bks else 1, G)
+            if name in ("X", "Y"):
+                w = 1 / sqrt(G)
+            contrib = w * contrib * tens
+            all_slots += slots_idx
+            copies.append((tens, up, lo))
+        if not fits:
             continue
-        if cls == "M":
-            nl = shape[1]
-            ordered = slots_idx[nl:] + slots_idx[:nl]     # upper, lower
-        else:
-            ordered = slots_idx
-        tens = tensor_for_block(spec, ordered)
-        if cls == "N":
-            up, lo = tuple(ordered), ()
-        else:
-            up, lo = tuple(ordered[:nu]), tuple(ordered[nu:])
-        G = group_order(cls, nu, up, lo, bks)
-        w = Rational(2 if bks else 1, G)
-        if name in ("X", "Y"):
-            w = 1 / sqrt(G)
-        R += w * bs * tens
-        sym_checks.append((bs, tens, up, lo, T + slots_idx))
+        R += contrib
+        for tens, up, lo in copies:
+            sym_checks.append((bs, tens, up, lo, T + all_slots))
     if res["det"]:
         res["status"] = "differ"
         return res
